@@ -374,7 +374,12 @@ func (k Keeper) UpdateLockedBorrows(ctx sdk.Context, borrow lendtypes.BorrowAsse
 	pair, _ := k.lend.GetLendPair(ctx, borrow.PairID)
 	cAsset, _ := k.asset.GetAsset(ctx, assetRatesStats.CAssetID)
 	//Calculating Liquidation Fees
-	feesToBeCollected := sdk.NewDecFromInt(borrow.AmountOut.Amount).Mul(assetRatesStats.LiquidationPenalty).TruncateInt()
+	// an e-mode pair has its own penalty; MsgCloseDutchAuctionForBorrow books that one to the reserve
+	liquidationPenalty := assetRatesStats.LiquidationPenalty
+	if lendPair.IsEModeEnabled {
+		liquidationPenalty = assetRatesStats.ELiquidationPenalty
+	}
+	feesToBeCollected := sdk.NewDecFromInt(borrow.AmountOut.Amount).Mul(liquidationPenalty).TruncateInt()
 
 	//Calculating auction bonus to be given
 	auctionBonusToBeGiven := sdk.NewDecFromInt(borrow.AmountOut.Amount).Mul(assetRatesStats.LiquidationBonus).TruncateInt()
